@@ -344,30 +344,7 @@ def run(ctx):
     # a success path for a sender that is its configured insurance fund and NOT its owner (an `&&` where the role test
     # needs `||` would demand both roles at once and every shutdown would be refused)
     ctx.rule("R14.6", "the vAMM accepts SetOpen from its configured insurance fund alone (a success alternative with owner test false and sender == config.insurance_fund); the fund's owner alone may trigger ShutdownVamms", 2)
-    try:
-        so6 = arms.Arm(ix, VAMM, "SetOpen")
-        found = False
-        n_alt = 0
-        for (q, alt) in so6.alternatives():
-            n_alt += 1
-            admin_false = any(o is False and (("is_admin" in sym.show(at, 3)) or ("assert_admin" in sym.show(at, 3))) for (at, o) in alt)
-            fund_true = False
-            for (at, o) in alt:
-                a2, o2 = at, o
-                while tag(a2) == "op" and payload(a2)[0] == "not" and o2 in (True, False):
-                    a2, o2 = kids(a2)[0], (not o2)
-                if tag(a2) == "op" and payload(a2)[0] in ("eq", "ne") and len(kids(a2)) == 2:
-                    is_eq = (payload(a2)[0] == "eq") == bool(o2)
-                    ks = [ix.inline(k) for k in kids(a2)]
-                    if is_eq and so6.sender in ks and any(guards.is_field_of_item(ix, k, VAMM, "margined_vamm:config", "insurance_fund") for k in ks):
-                        fund_true = True
-            if admin_false and fund_true:
-                found = True
-        ctx.inst("R14.6", "fund-alone-may-close:SetOpen", found, so6.fn.where(),
-                 "%d success alternatives; %s" % (n_alt, "one of them has the owner test false and info.sender == config.insurance_fund" if found else
-                    "NONE succeeds for a sender that is the insurance fund but not the owner: ShutdownVamms would always be refused"))
-    except KeyError as e:
-        ctx.lost("R14.6", str(e))
+    fund_alone_instance(ctx, "R14.6")
 
     # the owner alone can trigger the shutdown (the tabled role is owner OR the fund itself - not both at once)
     try:
@@ -395,3 +372,45 @@ def run(ctx):
                     "NONE succeeds for the owner unless the sender is also the fund itself: nobody can trigger the shutdown"))
     except KeyError as e:
         ctx.lost("R14.6", str(e))
+
+
+def fund_alone_instance(ctx, rule):
+    """the vAMM's SetOpen has a success alternative for a sender that is its configured insurance fund and NOT its owner,
+    and that alternative does not depend on the requested value: the fund may close AND re-open (shared by C14 / C09)"""
+    ix = ctx.ix
+    try:
+        so6 = arms.Arm(ix, VAMM, "SetOpen")
+        found = False
+        n_alt = 0
+        unpinned = False
+        pins = set()
+        for (q, alt) in so6.alternatives():
+            n_alt += 1
+            admin_false = any(o is False and (("is_admin" in sym.show(at, 3)) or ("assert_admin" in sym.show(at, 3))) for (at, o) in alt)
+            fund_true = False
+            pin = set()
+            for (at, o) in alt:
+                a2, o2 = at, o
+                while tag(a2) == "op" and payload(a2)[0] == "not" and o2 in (True, False):
+                    a2, o2 = kids(a2)[0], (not o2)
+                if tag(a2) == "op" and payload(a2)[0] in ("eq", "ne") and len(kids(a2)) == 2:
+                    is_eq = (payload(a2)[0] == "eq") == bool(o2)
+                    ks = [ix.inline(k) for k in kids(a2)]
+                    if is_eq and so6.sender in ks and any(guards.is_field_of_item(ix, k, VAMM, "margined_vamm:config", "insurance_fund") for k in ks):
+                        fund_true = True
+                a3 = ix.inline(a2)
+                if o2 in (True, False) and ((tag(a3) == "param" and payload(a3)[2] == "open") or (tag(a3) == "field" and payload(a3)[0] == "open" and tag(kids(a3)[0]) in ("param", "as", "field") and "state" not in sym.show(a3, 4))):
+                    pin.add(bool(o2))   # the alternative branches on the requested value itself
+            if admin_false and fund_true:
+                found = True
+                if pin:
+                    pins |= pin
+                else:
+                    unpinned = True
+        both = unpinned or pins == {True, False}
+        ctx.inst(rule, "fund-alone-may-close:SetOpen", found and both, so6.fn.where(),
+                 "%d success alternatives; %s" % (n_alt, "one of them has the owner test false and info.sender == config.insurance_fund, whatever value is requested" if found and both else
+                    ("the fund alone succeeds only for open == %s: the role holder is refused the other transition" % sorted(pins) if found else
+                    "NONE succeeds for a sender that is the insurance fund but not the owner: ShutdownVamms would always be refused")))
+    except KeyError as e:
+        ctx.lost(rule, str(e))
